@@ -73,7 +73,9 @@ pub fn render(c: &Value, split: bool) -> String {
             // the field of a struct variant carries the f1 options
             let vf = format!(" {{\n{}\na: u8 }}", f1);
             let st = match c["v1style"].as_str().unwrap() { "unit" => "", "newtype" => "(u8)", "struct" => vf.as_str(), "tuple0" => "()", "struct0" => " {}", _ => "(u8, u16)" };
-            format!("enum Demo {{\n{}\nV1{},\n{}\n}}", v1, st, if c["v2present"] == true { format!("{}\nV2,", v2) } else { String::new() })
+            // a second struct variant when field 2 carries options
+            let v2body = if c["f2present"] == true { format!(" {{\n{}\nb: u8 }}", f2) } else { String::new() };
+            format!("enum Demo {{\n{}\nV1{},\n{}\n}}", v1, st, if c["v2present"] == true || c["f2present"] == true { format!("{}\nV2{},", v2, v2body) } else { String::new() })
         }
         s => panic!("shape {}", s),
     };
@@ -165,6 +167,7 @@ pub fn positions(di: &syn::DeriveInput) -> Vec<((String, u64), Range)> {
             items_of(&v.attrs, &el, &mut out);
             out.push(((el, 0), Range::of(syn::spanned::Spanned::span(v))));
             // the first field of the first variant is element "f1"
+            if i == 1 { if let Some(f) = v.fields.iter().next() { items_of(&f.attrs, "f2", &mut out); out.push((("f2".into(), 0), Range::of(syn::spanned::Spanned::span(f)))); } }
             if i == 0 { if let Some(f) = v.fields.iter().next() { items_of(&f.attrs, "f1", &mut out); out.push((("f1".into(), 0), Range::of(syn::spanned::Spanned::span(f)))); } }
         },
         _ => {}
@@ -243,9 +246,9 @@ const FIELD_ALPHA: [(&str, &str); 25] = [
 const VARIANT_ALPHA: [(&str, &str); 12] = [
     ("rename", "str"), ("rename", "true"), ("skip", "word"), ("skip", "false"), ("word", "word"), ("word", "false"), ("word", "str"), ("bogus", "str"), ("@bare", ""), ("@nv", ""), ("@lit", ""), ("@junk", ""),
 ];
-const CONT_ALPHA: [(&str, &str); 30] = [
+const CONT_ALPHA: [(&str, &str); 31] = [
     ("default", "word"), ("default", "words"), ("rename_all", "rule"), ("rename_all", "str"), ("map", "str"), ("and_then", "str"), ("allow_unknown_fields", "word"),
-    ("allow_unknown_fields", "str"), ("attributes", "words"), ("attributes", "str"), ("forward_attrs", "word"), ("forward_attrs", "words"), ("from_ident", "word"),
+    ("allow_unknown_fields", "str"), ("attributes", "words"), ("attributes", "str"), ("forward_attrs", "word"), ("forward_attrs", "words"), ("forward_attrs", "empty"), ("from_ident", "word"),
     ("from_word", "path"), ("from_word", "str"), ("from_none", "closure"), ("supports", "shapes"), ("supports", "badshape"), ("supports", "dblprefix"), ("supports", "anybad"), ("bound", "preds"), ("bound", "str"), ("::map", "str"), ("::default", "word"), ("bogus", "words"),
     ("bogus", "word"), ("@bare", ""), ("@nv", ""), ("@lit", ""), ("@junk", ""),
 ];
@@ -271,7 +274,7 @@ pub fn record(rng: &mut Rng, n: usize) -> Vec<Value> {
         let v1style = if shape != "enum" { "unit" } else { *rng.pick(&["unit", "unit", "unit", "newtype", "struct", "struct", "tuple2", "tuple0", "struct0"]) };
         let fields = shape == "named" || shape.starts_with("named_attrs") || (shape == "enum" && v1style == "struct");
         let f1 = if fields { draw(rng, &FIELD_ALPHA, 5, true) } else { vec![] };
-        let f2 = if shape == "named" { draw(rng, &FIELD_ALPHA, 5, true) } else { vec![] };
+        let f2 = if shape == "named" || (shape == "enum" && v1style == "struct" && rng.chance(1, 2)) { draw(rng, &FIELD_ALPHA, 5, true) } else { vec![] };
         let v1 = if shape == "enum" { draw(rng, &VARIANT_ALPHA, 4, true) } else { vec![] };
         let v2 = if shape == "enum" { draw(rng, &VARIANT_ALPHA, 4, true) } else { vec![] };
         let mut c = json!({"derive": derive, "shape": shape, "cont": cont, "f1": f1, "f2": f2, "v1": v1, "v2": v2, "v1style": v1style,
